@@ -520,6 +520,7 @@ pub fn run(args: &Args) -> Report {
     });
     if !miri && args.replay.is_none() && args.wants("C08") {
         rep.merge(server_level_pipelining());
+        rep.merge(server_level_tls());
     }
     if let Some(p) = rep.props.get_mut("C18") {
         p.exhaustive = Some(false);
@@ -538,6 +539,76 @@ pub fn run(args: &Args) -> Report {
 /// Server level (`Server::builder().with_auto_http()` / `.with_http1()` on a duplex acceptor): two pipelined HTTP/1.1
 /// requests, the client's bytes cut inside the second one. The first request is complete, so its response must arrive
 /// before the rest of the second request is sent - exactly as on a single-protocol server - wherever the cut falls.
+/// The auto-detecting server behind the TLS acceptor (the sniffing wrapper then sits between hyper and the TLS stream):
+/// keep-alive requests whose answers are much larger than the pipe must be answered completely, as they are by the
+/// HTTP/1-only server behind the same acceptor.
+fn server_level_tls() -> Report {
+    use crate::e2e::shutdown::{h1_request, parse_h1_response};
+    use crate::e2e::*;
+    use tokio::io::{AsyncReadExt, AsyncWriteExt};
+    let mut rep = Report::new("sniff");
+    let rt = tokio::runtime::Builder::new_current_thread().enable_all().start_paused(true).build().unwrap();
+    for proto in [Proto::Auto, Proto::H1] {
+        for pipe in [300usize, 1024, 16_384] {
+            for ids in [[5u64, 12], [4, 5], [1, 3], [26, 5]] {
+                let problems: Vec<(String, String)> = rt.block_on(async move {
+                    let mut problems = Vec::new();
+                    let log = Arc::new(Log::default());
+                    let gates = Gates::default();
+                    let server = spawn_server(ServerSpec { id: 0, proto, net: Net::Duplex(pipe), tls: Some(Arc::new(server_tls("good", &["http/1.1"]))), graceful: false, sni_validation: false }, log.clone(), gates.clone()).await;
+                    let Target::Duplex(dclient, _) = server.target.clone() else { unreachable!() };
+                    let Ok(io) = dclient.connect(pipe).await else { return vec![("server-level-tls:connect-failed".to_string(), String::new())] };
+                    let name = rustls::pki_types::ServerName::try_from("a.test").unwrap();
+                    let mut tls = match tokio::time::timeout(std::time::Duration::from_secs(600), tokio_rustls::TlsConnector::from(Arc::new(client_tls(&["http/1.1"]))).connect(name, io)).await {
+                        Ok(Ok(t)) => t,
+                        other => return vec![("server-level-tls:handshake-failed".to_string(), format!("{:?}", other.map(|r| r.map(|_| ()).map_err(|e| e.to_string()))))],
+                    };
+                    for id in ids {
+                        let (head, body) = h1_request(id, 9, None, true);
+                        let _ = tls.write_all(&head).await;
+                        let _ = tls.write_all(&body).await;
+                        let _ = tls.flush().await;
+                        let mut got = Vec::new();
+                        let mut buf = [0u8; 8192];
+                        loop {
+                            if parse_h1_response(&got).map(|p| p.complete).unwrap_or(false) {
+                                break;
+                            }
+                            match tokio::time::timeout(std::time::Duration::from_millis(50), tls.read(&mut buf)).await {
+                                Ok(Ok(n)) if n > 0 => got.extend_from_slice(&buf[..n]),
+                                _ => break,
+                            }
+                        }
+                        match parse_h1_response(&got) {
+                            Some(p) if p.complete => {
+                                if p.body.len() != resp_len(id) || p.headers.get("x-id").and_then(|v| v.to_str().ok()) != Some(&id.to_string()) {
+                                    problems.push((format!("server-level-tls:response-differs:{proto:?}"), format!("request {id}: {} body bytes, x-id {:?}; want {} bytes", p.body.len(), p.headers.get("x-id"), resp_len(id))));
+                                }
+                            }
+                            _ => {
+                                problems.push((
+                                    format!("server-level-tls:response-incomplete-at-quiescence:{proto:?}"),
+                                    format!("keep-alive request {id} (answer of {} bytes) over TLS through a {pipe} B pipe: {} bytes received when nothing can make progress any more", resp_len(id), got.len()),
+                                ));
+                                break;
+                            }
+                        }
+                    }
+                    server.join.abort();
+                    problems
+                });
+                let p = rep.prop("C08", RULE);
+                p.eval(Some(hash_of(&("server-level-tls", format!("{proto:?}"), pipe, ids))));
+                p.count("server_level_tls_cases", 1);
+                for (sig, msg) in problems {
+                    p.violation(sig, msg, json!({"engine": "sniff", "server_level_tls": true, "proto": format!("{proto:?}"), "pipe": pipe, "ids": ids}));
+                }
+            }
+        }
+    }
+    rep
+}
+
 fn server_level_pipelining() -> Report {
     use crate::e2e::shutdown::{h1_request, parse_h1_response, read_available};
     use crate::e2e::*;
